@@ -59,10 +59,11 @@ def work_function(args):
         out['gen_s'] = time.time() - t0
         out['prune'] = eng.stats
         b = _budget(tier)
-        for o in obls:
-            if prop is not None and o.kind not in STRUCTURAL and o.kind != 'canary' and \
-                    o.kind != 'kf-repro' and prop not in o.props:
-                continue
+        todo = [o for o in obls if not (
+            prop is not None and o.kind not in STRUCTURAL and o.kind != 'canary' and
+            o.kind != 'kf-repro' and prop not in o.props)]
+
+        def solve_one(o):
             def on_model(m, eng=eng):
                 try:
                     rd = solve.ModelReader(eng, m, eng.cur_pre.heap, eng.cur_pre.ghost)
@@ -77,10 +78,47 @@ def work_function(args):
                    'backend': r['backend'], 'time_s': round(r['time_s'], 4),
                    'model': r.get('model'), 'trace': list(o.trace),
                    'kf': getattr(o, 'kf', None), 'smt2': r.get('smt2')}
-            if r['status'] != 'unsat' or len(out['results']) < 2:
+            if r['status'] != 'unsat':
                 rec['smt_premises'] = len(o.premises)
                 rec['goal'] = str(z3.simplify(o.goal))[:600]
-            out['results'].append(rec)
+            return rec
+
+        if len(todo) > 250:
+            # a large function: the obligations are solved by forked helpers (each inherits the
+            # z3 terms by copy-on-write) so that one function does not serialise the whole check
+            import pickle
+            nchild = 6
+            pipes = []
+            for ci in range(nchild):
+                rfd, wfd = os.pipe()
+                pid = os.fork()
+                if pid == 0:
+                    os.close(rfd)
+                    try:
+                        part = [solve_one(o) for o in todo[ci::nchild]]
+                        data = pickle.dumps(part)
+                    except BaseException:
+                        data = pickle.dumps({'error': traceback.format_exc()})
+                    with os.fdopen(wfd, 'wb') as w:
+                        w.write(data)
+                    os._exit(0)
+                os.close(wfd)
+                pipes.append((pid, rfd))
+            for pid, rfd in pipes:
+                with os.fdopen(rfd, 'rb') as rf:
+                    data = rf.read()
+                os.waitpid(pid, 0)
+                part = pickle.loads(data)
+                if isinstance(part, dict):
+                    raise RuntimeError('solver helper failed: ' + part['error'])
+                out['results'].extend(part)
+        else:
+            for o in todo:
+                out['results'].append(solve_one(o))
+        if out['results']:
+            for rec in out['results'][:2]:
+                if 'goal' not in rec:
+                    rec['goal'] = '(discharged)'
     except core.EngineError as e:
         out['error'] = 'out-of-subset/contract drift: %s' % e
     except Exception:
@@ -210,7 +248,8 @@ def run_property(prop, tier='quick', seed=0, jobs=12):
         row = {'function': o['func'], 'file': o.get('file'), 'lines': o.get('lines'),
                'sha256': o.get('sha256'), 'paths': o.get('paths'),
                'in_subset': o['error'] is None,
-               'obligations': 0, 'discharged': 0, 'wall_s': round(o.get('wall_s', 0), 2)}
+               'obligations': 0, 'discharged': 0, 'wall_s': round(o.get('wall_s', 0), 2),
+               'generation_s': round(o.get('gen_s', 0), 2)}
         libuse.update(o.get('libuse', []))
         trusted.extend(o.get('dropped', []))
         if o['error']:
